@@ -291,15 +291,12 @@ Proof.
   apply Z.leb_le in E3, E4. unfold max_ring in E4. lia.
 Qed.
 
-Lemma step_holds : forall c s cs pos op s' o, cfg_ok c -> 0 <= maxR c < 2^52 -> Inv s cs ->
-  step c s op = Some (s', o) ->
-  Inv s' (fst (cl_step c cs pos op o)) /\ walk_ok (snd (cl_step c cs pos op o)) = true.
+Lemma build_holds : forall c s cs pos idxs s' o, cfg_ok c -> 0 <= maxR c < 2^52 -> Inv s cs ->
+  step_build c s idxs = Some (s', o) ->
+  Inv s' (fst (cl_build c cs pos idxs o)) /\ walk_ok (snd (cl_build c cs pos idxs o)) = true.
 Proof.
-  intros c s cs pos op s' o Hc Hmx (Hring & Hidx & Hsorted & Hrange) Hstep.
-  destruct op as [|t r]; [discriminate|].
-  destruct (Z.eq_dec t 1) as [->|N1].
-  { (* build *)
-    cbn [step cl_step] in *. unfold cl_build.
+  intros c s cs pos r s' o Hc Hmx (Hring & Hidx & Hsorted & Hrange) Hstep.
+  unfold step_build in Hstep. unfold cl_build.
     destruct (select c r) as [eps|] eqn:Esel.
     - destruct (tgts_ok (minR c) (maxR c) eps) eqn:Etg; [|discriminate].
       destruct (new_ring (minR c) (maxR c) eps) as [ring|] eqn:Er; [|discriminate].
@@ -312,7 +309,21 @@ Proof.
         destruct (size_float _ _ _ _ Hmx Etg Er) as (tn & _ & _ & Hiff).
         apply Z.leb_le. apply Hiff. exact Eov. }
       unfold walk_ok. cbn [forallb fst snd]. rewrite H4. reflexivity.
-    - inversion Hstep; subst. cbn [fst snd]. split; [repeat split; assumption|reflexivity]. }
+    - inversion Hstep; subst. cbn [fst snd]. split; [repeat split; assumption|reflexivity].
+Qed.
+
+Lemma step_holds : forall c s cs pos op s' o, cfg_ok c -> 0 <= maxR c < 2^52 -> Inv s cs ->
+  step c s op = Some (s', o) ->
+  Inv s' (fst (cl_step c cs pos op o)) /\ walk_ok (snd (cl_step c cs pos op o)) = true.
+Proof.
+  intros c s cs pos op s' o Hc Hmx (Hring & Hidx & Hsorted & Hrange) Hstep.
+  destruct op as [|t r]; [discriminate|].
+  destruct (Z.eq_dec t 1) as [->|N1].
+  { cbn [step cl_step] in *. apply (build_holds c s cs pos r s' o Hc Hmx); [|exact Hstep].
+    repeat split; assumption. }
+  destruct (Z.eq_dec t 6) as [->|N6].
+  { cbn [step cl_step] in *. apply (build_holds c s cs pos (update_idxs r) s' o Hc Hmx); [|exact Hstep].
+    repeat split; assumption. }
   destruct (Z.eq_dec t 2) as [->|N2].
   { (* ring.pick *)
     destruct r as [|h [|? ?]]; try discriminate.
